@@ -9,7 +9,7 @@ for d in seeded/*/; do
   s=$(basename $d); p=$(python3 -c "import json;print(json.load(open('$d/meta.json'))['property'])")
   if ! git -C /repo apply /verif/$d/patch.diff 2>/dev/null; then echo "| $s | $p | - | patch does not apply |" >> $OUT; continue; fi
   ./check $p --tier quick > /tmp/seedrun.log 2>&1; code=$?
-  git -C /repo checkout -- .
+  git -C /repo checkout -- . ; git -C /repo clean -fdq -- netconan   # a seed may add a new module: untracked files are removed too
   cl=$(grep "violated:" /tmp/seedrun.log | awk '{print $2}' | sort -u | tr '\n' ' ')
   nb=$(python3 -c "import json;print(json.load(open('$d/meta.json')).get('neutralised_by',''))")
   [ -n "$nb" ] && cl="(neutralised by fix $nb: the change no longer breaks the property; exit 0 is the right answer) $cl"
